@@ -79,6 +79,14 @@ def run(ctx):
             elif ty.startswith("alloc::vec::Vec<"):
                 va = [e for k, d, e in A if k == ["discr(a1)=Array"]]
                 ok = len(va) == 1 and "Iterator::collect(" in va[0] and "(a1 as Array).0.elems" in va[0]
+                if not ok:
+                    # the same arm as a loop: one push of the converted element per element of the
+                    # array, into the vector that is returned
+                    lp = [h for h in ctx.per_element(f, r"Vec::<.*>::push$") if h["form"] == "loop" and "(a1 as Array).0.elems" in h["source"]]
+                    okv = [e for e in va if e.startswith("core::result::Result::Ok{")]
+                    ok = len(lp) == 1 and len(okv) == 1 and ctx.expr(f, lp[0]["t"]["args"][0]) in okv[0] \
+                        and re.search(r"FromMeta>::from_value\(.*\) as Ok\)\.0$", ctx.expr(f, lp[0]["t"]["args"][1])) is not None
+                ok = ok and not ctx.find_calls_deep(f, r"::rev$|::next_back$|::rposition$|::reverse$", helpers=1)
                 ctx.ob("C13.G.array-elements-in-order", f.key, "Expr::Array arm", ok, "%s" % [e[:160] for e in va])
             # everything else rejected, self-spanned
             fb = [e for k, d, e in A if k and "not-in" in k[0]]
